@@ -558,6 +558,16 @@ def cli_equivalence(tier):
         ds4['lat'].encoding.update(dtype='int16', scale_factor=0.05, add_offset=-20.0, _FillValue=numpy.int16(-32768))
         ds4['lon'].encoding.update(dtype='int16', scale_factor=0.05, add_offset=150.0, _FillValue=numpy.int16(-32768))
         datasets['cf1d-packed'] = ds4
+        # a static file: no time coordinate at all
+        datasets['cf1d-static'] = builders.cf1d(3, 4, data_vars={'botz': (('y', 'x'), numpy.arange(12.0).reshape(3, 4))})
+        # a model calendar without leap days (decoded to cftime objects, not numpy datetimes)
+        try:
+            tnl = xarray.date_range('2000-02-27', periods=2, calendar='noleap', use_cftime=True)
+            dnl = builders.cf1d(3, 4, data_vars={'temp': (('t', 'y', 'x'), numpy.arange(24.0).reshape(2, 3, 4))}).assign_coords(time=(('t',), tnl))
+            dnl['time'].encoding.update(units='days since 1990-01-01 00:00:00', calendar='noleap')
+            datasets['cf1d-noleap'] = dnl
+        except Exception:
+            pass
         # many variables (more than a file-handle cache holds): the clipped pieces must still be there when the result is saved
         datasets['cf1d-many'] = builders.cf1d(2, 3, data_vars={f'v{k:03d}': (('y', 'x'), numpy.arange(6.0).reshape(2, 3) + k) for k in range(140)})
         for name, ds in datasets.items():
